@@ -148,7 +148,7 @@ func Load(dir, goarch, modPath string, minPkgs int) (*Ctx, error) {
 				// an exported function the pinned tree does not have: a helper / accessor added later
 				return !pinnedExported[c.FuncName(g)] && !c.isAnchorFn(g) && g.Name() != "String" && g.Name() != "Error"
 			}
-			return !c.isAnchorFn(g) && !strings.HasPrefix(g.Name(), "toString_") && !strings.HasPrefix(g.Name(), "init")
+			return !c.isAnchorFn(g) && !strings.HasPrefix(g.Name(), "toString_") && !isPkgInitName(g.Name())
 		}}
 		// constant package-level tables (a composite literal of constants assigned once by the package
 		// initializer, never written and never handed out): reads of their cells and lengths become constants
@@ -438,7 +438,7 @@ func (c *Ctx) dropDeadHelpers() {
 		dropped := false
 		for _, fn := range c.ModFuncs {
 			dead := fn.Parent() == nil && fn.Object() != nil && !fn.Object().Exported() && fn.Signature.Recv() == nil &&
-				!referenced[fn] && !c.isAnchorFn(fn) && !strings.HasPrefix(fn.Name(), "init") && fn.Name() != "main"
+				!referenced[fn] && !c.isAnchorFn(fn) && !isPkgInitName(fn.Name()) && fn.Name() != "main"
 			// unexported methods can be reached through interfaces; only those of types that implement no
 			// module interface method of that name are considered: keep it simple and require a plain function
 			// or a method that is not in any interface's method set
@@ -481,4 +481,10 @@ func (c *Ctx) methodNameInSomeInterface(name string) bool {
 		}
 	}
 	return false
+}
+
+// isPkgInitName: the package initialiser and the init functions of a package ("init", "init#1", ...), not a
+// function that merely starts with these letters (initMAC, initSecurityObjects).
+func isPkgInitName(n string) bool {
+	return n == "init" || strings.HasPrefix(n, "init#")
 }
